@@ -290,9 +290,12 @@ def _get_or_make_region(
       line_num = parse_vtt_int(value[0])
       if line_num is not None:
         if writing_mode in (styles.WritingModeType.rltb, styles.WritingModeType.lrtb):
-          line_offset = 100 * line_num/_DEFAULT_ROWS if line_num > 0 else 100 - 100 * line_num/_DEFAULT_ROWS
+          line_count = _DEFAULT_ROWS
         else:
-          line_offset = 100 * line_num/_DEFAULT_COLS if line_num > 0 else 100 - 100 * line_num/_DEFAULT_COLS
+          line_count = _DEFAULT_COLS
+        # non-negative line numbers count from the start edge, negative ones from the end edge
+        line_offset = 100 * line_num/line_count if line_num >= 0 else 100 + 100 * line_num/line_count
+        line_offset = min(max(line_offset, 0), 100)
 
     if line_offset is not None:
       if line_align == "center":
@@ -301,7 +304,7 @@ def _get_or_make_region(
           origin_y = line_offset - extent_height / 2
         else:
           extent_width = min(line_offset, 100 - line_offset) * 2
-          origin_x = line_offset - extent_height / 2
+          origin_x = line_offset - extent_width / 2
         display_align = styles.DisplayAlignType.center
       elif line_align == "start":
         if writing_mode in (styles.WritingModeType.rltb, styles.WritingModeType.lrtb):
